@@ -19,6 +19,11 @@ fn c11_all() {
         vec![(0, "package p; import a.Foo; import b.Foo; import c.Foo; import d.Foo; import e.Foo; parcelable Foo; parcelable x.Foo; interface I { void f(); }")],
         vec![(0, "package p; import q.A; interface I { void f(in A x); }"), (1, "package q; parcelable A { int x; }"), (2, "package q; interface A { }"), (3, "package q; enum A { X }")],
         vec![(0, "package p; import a.B; import c.D; import e.F; import g.H; interface I { Foo f(); Bar g(); }")],
+        // the same item defined by several files, every pair of kinds (the kind importers see must not depend on the run)
+        vec![(0, "package p; import q.A; interface I { void f(in A x, out A y, A z); }"), (1, "package q; parcelable A { int x; }"), (2, "package q; enum A { X }")],
+        vec![(0, "package p; import q.A; interface I { void f(in A x, out A y, A z); }"), (1, "package q; enum A { X }"), (2, "package q; interface A { }")],
+        vec![(0, "package p; import q.A; interface I { void f(in A x, out A y, A z); }"), (1, "package q; interface A { }"), (2, "package q; parcelable A { int x; }")],
+        vec![(0, "package p; import q.A; interface I { void f(in A x, out A[] y, in List<A> z); }"), (1, "package q; parcelable A { int x; }"), (2, "package q; enum A { X }"), (3, "package q; parcelable A { String s; }"), (4, "package q; enum A { Y, Z }")],
     ];
     for (pi, files) in projects.iter().enumerate() {
         let n = files.len();
